@@ -195,16 +195,24 @@ func pairCase(c *mon.Case, r *mon.Run, tr string, dir string, f fault, seed uint
 		}{{"client", cw, cs.retTick}, {"server", sw, ss.retTick}} {
 			dl := w.conn.DeadlineLog()
 			_, reads, _ := w.conn.In().Snapshot()
-			armed, cleared := false, false
+			armed := false
+			rdSet, wrSet := false, false // a finite read / write deadline is in force
 			for _, d := range dl {
 				if !d.Zero && d.In > 0 && (len(reads) == 0 || d.Tick < reads[0].Tick) {
 					armed = true
 					r.Distinct("deadline_durations", fmt.Sprintf("%s/%s/%v", tr, w.name, d.In))
 				}
-				if d.Zero && d.Tick < w.ret {
-					cleared = true
+				if d.Tick < w.ret {
+					if d.Kind == "rw" || d.Kind == "r" {
+						rdSet = !d.Zero
+					}
+					if d.Kind == "rw" || d.Kind == "w" {
+						wrSet = !d.Zero
+					}
 				}
 			}
+			// removed = neither a read nor a write deadline is left in force when the call returns
+			cleared := armed && !rdSet && !wrSet
 			if !armed {
 				c.Violation(fmt.Sprintf("deadline/not-armed-before-first-read/%s/%s", tr, w.name), "no finite deadline was in force before the first handshake read", wit)
 			}
@@ -245,6 +253,30 @@ func pairCase(c *mon.Case, r *mon.Run, tr string, dir string, f fault, seed uint
 			}
 			if !cs.appEnded && !ss.appEnded {
 				r.Count("established_idle_survived_10min", 1)
+				// and it still carries data both ways afterwards (a wire that
+				// went silent cannot, of course: there only Write is judged)
+				for _, pr := range [][2]*endState{{cl, sv}, {sv, cl}} {
+					from, to := pr[0], pr[1]
+					mu.Lock()
+					before := to.appGot
+					conn := from.conn
+					mu.Unlock()
+					if _, err := conn.Write(make([]byte, 500)); err != nil {
+						c.Violation(fmt.Sprintf("stale-timer/%s/%s/write-after-idle", tr, from.name), fmt.Sprintf("Write on an established connection that had been idle for 10 virtual minutes failed: %v", err), wit)
+						continue
+					}
+					synctest.Wait()
+					mu.Lock()
+					got := to.appGot - before
+					mu.Unlock()
+					if f.kind == "silence" {
+						r.Count("established_write_after_idle_ok", 1)
+					} else if got != 500 {
+						c.Violation(fmt.Sprintf("stale-timer/%s/%s/data-after-idle", tr, from.name), fmt.Sprintf("500 bytes written after 10 idle minutes, %d delivered", got), wit)
+					} else {
+						r.Count("established_carries_data_after_idle", 1)
+					}
+				}
 			}
 		}
 	} else if cs.returned && ss.returned {
